@@ -179,7 +179,9 @@ class IntWP:
         return name
 
     def oblige(self, name, path, goal, where):
-        self.obligations.append((name, path, goal, where))
+        # an obligation may use only what was assumed BEFORE it in program order (a contract's postcondition assumed
+        # at a later call -- possibly false on this path -- must not discharge an earlier obligation vacuously)
+        self.obligations.append((name, path, goal, where, len(self.assumes), len(self.asserts)))
 
     def ty(self, ft, n):
         return ft.ty(n)
@@ -882,7 +884,7 @@ class IntWP:
         pre, post = self.replace[mg]
         if any(isinstance(v, Ref) for v in vals):
             raise Unsupported('contract replacement of a function with reference parameters')
-        if pre == 'UF':
+        if pre.startswith('UF'):
             # determinism abstraction: uninterpreted function of the (flattened) arguments
             flat = []
             for v in vals:
@@ -901,20 +903,25 @@ class IntWP:
                 out[fld] = self.define('uf', '(%s %s)' % (name, ' '.join(flat)))
             res = out if rt.is_struct() else out[None]
             if post:
-                # ... that additionally satisfies the function's (proved) contract
+                # ... that additionally satisfies the function's (proved) contract on its domain
+                guard = 'true'
+                if pre.startswith('UF:'):
+                    guard = self.define('pre', self.as_bool(self.call_by_mangled(pre[3:], list(vals), path)), 'Bool')
                 g = self.call_by_mangled(post, list(vals) + [res], 'true')
-                self.assumes.append('(=> %s %s)' % (path, self.as_bool(g)))
+                self.assumes.append('(=> (and %s %s) %s)' % (path, guard, self.as_bool(g)))
             return res
+        pre_term = 'true'
         if pre:
             g = self.call_by_mangled(pre, list(vals), path)
-            self.oblige('precondition', path, self.as_bool(g), 'requires %s at call of %s' % (pre, d.get('name')))
+            pre_term = self.define('pre', self.as_bool(g), 'Bool')
+            self.oblige('precondition', path, pre_term, 'requires %s at call of %s' % (pre, d.get('name')))
         ft = X.FnTranslator(self.ex, d, 'c')
         ft.collect_aliases(d)
         rt = ft.ret_type(d, None, d['type']['qualType'])
         res = self.input_value('res_' + (d.get('name') or 'f'), rt)
         g = self.call_by_mangled(post, list(vals) + [res], 'true')
-        # the contract holds whenever the call is reached
-        self.assumes.append('(=> %s %s)' % (path, self.as_bool(g)))
+        # the contract holds whenever the call is reached WITH its precondition satisfied
+        self.assumes.append('(=> (and %s %s) %s)' % (path, pre_term, self.as_bool(g)))
         return res
 
 
@@ -1028,10 +1035,13 @@ def solve_unit_int(unit, workdir, core, seed=0):
         getvals += list(v.values()) if isinstance(v, dict) else [v]
     queries = []
     counts = {}
-    for (name, path, goal, where) in wp.obligations:
+    decls = PRELUDE + '\n'.join(wp.decls) + '\n'
+    for (name, path, goal, where, n_assumes, n_asserts) in wp.obligations:
         counts[name] = counts.get(name, 0) + 1
         oid = '%s.%s.%d' % (cn, name, counts[name])
-        q = base + '(assert %s)\n(assert (not %s))\n(check-sat)\n(get-value (%s))\n' % (path, goal, ' '.join(getvals))
+        # definitional equalities are harmless (each defines a fresh constant); assumptions are cut at program order
+        q = decls + '\n'.join('(assert %s)' % a for a in wp.asserts) + '\n' + '\n'.join('(assert %s)' % a for a in wp.assumes[:n_assumes]) + \
+            '\n(assert %s)\n(assert (not %s))\n(check-sat)\n(get-value (%s))\n' % (path, goal, ' '.join(getvals))
         queries.append((oid, where, q))
     queries.append(('%s.vf_canary' % cn, 'vf_canary: precondition and assumed contracts are satisfiable',
                     base + '(check-sat)\n'))
